@@ -71,7 +71,8 @@ class C12(Check):
         assert fixable == sorted(fixlib.SINGLE_RULES), set(fixable) ^ set(fixlib.SINGLE_RULES)
 
     def pinned(self, tier):
-        return fixlib.pinned_slice(tier, ["format", "all", "layout", "core"], 8, 30)
+        yield from fixlib.pinned_slice(tier, ["format", "all", "layout", "core"], 8, 30)
+        yield from fixlib.structure_family()
 
     def strategy(self, tier):
         # quick: mutation operators that usually keep the fixture parsable (fewer exclusions); thorough: all operators
